@@ -32,7 +32,8 @@ Quirks reproduced
   that the keys are distinct strings).
 * `Integer.new(float)` is Go's `int64(f)`: truncation, and MinInt64 for NaN, the infinities and everything outside int64
   (the amd64 conversion; implementation-defined in the Go specification — `F64.toInt64`).
-* `Timespan` and `Timestamp` in `Convertible` have no values in the alphabet: they are written `never`.
+* a Timespan converts to its whole seconds (`Timespan.Int()`); `Timestamp` in `Convertible` has no value in the alphabet:
+  it is written `never`.
 * `Array.new(string)`: `Elements()` sizes the slice by bytes and fills it by rune index, so any non-ASCII character
   leaves a nil slot and `WrapValues` reports `NIL_ARRAY_ELEMENT`.
 -/
@@ -90,6 +91,7 @@ def intFromConvertible (from_ : Val) (radix : Nat) : CtorResult Val :=
   match from_ with
   | .int n => .value (.int n)
   | .float b => .value (.int (F64.toInt64 b))
+  | .timespan ns => .value (.int (F64.spanSeconds ns))
   | .bool b => .value (.int (if b then 1 else 0))
   | .str s => match integerFromString s radix with
     | some n => .value (.int n)
@@ -101,7 +103,8 @@ structure Ctor where
   creators : List (Creator Ty BTy)
   body : Nat → List Val → CtorResult Val
 
-def convertible : Ty := .var [.numeric, .bool, .intPat, .never, .never]
+def anyTimespan : Ty := .timespan F64.minInt F64.maxInt
+def convertible : Ty := .var [.numeric, .bool, .intPat, anyTimespan, .never]
 def radixTy : Ty := .var [.default, .int (some 2) (some 2), .int (some 8) (some 8), .int (some 10) (some 10), .int (some 16) (some 16)]
 
 /-- `args[i].(booleanValue).Bool()`: a failed type assertion is a fault -/
@@ -151,9 +154,9 @@ def integerBody1 (es : List (Val × Val)) : CtorResult Val :=
   | some abs => applyAbs abs (intFromConvertible ((lookupKey "from" es).getD .undef) (namedRadix es))
 
 def boolParam : Ty := .var [.int none none, .float (-F64.maxFiniteKey) F64.maxFiniteKey, .bool, .enumci ["false", "true", "yes", "no", "y", "n"]]
-/-- `Variant[Array,Hash,Binary,Iterable]`: Binary has no value in the alphabet (`never`); `Iterable` on the alphabet is
-    arrays, hashes and strings (the `px.Indexed` values) -/
-def arrayParam : Ty := .var [.arr .any 0 none, .hash .any .any 0 none, .never, .var [.arr .any 0 none, .hash .any .any 0 none, .str 0 none]]
+/-- `Variant[Array,Hash,Binary,Iterable]`; `Iterable` on the alphabet is arrays, hashes and strings (the `px.Indexed`
+    values; a Binary is not) -/
+def arrayParam : Ty := .var [.arr .any 0 none, .hash .any .any 0 none, .binary, .var [.arr .any 0 none, .hash .any .any 0 none, .str 0 none]]
 
 def integerCtor : Ctor where
   creators :=
@@ -195,6 +198,7 @@ def arrayCtor : Ctor where
           | some false => .value (.arr vs))
        | [] => .value (.arr vs))
     | .hash es :: _ => .value (hashAsArray es)   -- arg.(px.Arrayable).AsArray(); the wrap flag only counts for an array
+    | .binary bs :: _ => .value (.arr (bs.map fun b => .int b.toNat))     -- `Binary.AsArray()`
     | .str s :: _ => stringElements s
     | _ => .fault                                 -- arg.(px.Arrayable) of a value that is not; args[0] of an empty list
 
